@@ -116,6 +116,7 @@ func VerifC11IntrospectionReuse() {
 
 	acceptable := active && hasScope && trustedIssuer && expIn > -1
 
+	snap := verifapi.Snapshot(a)
 	first, err1 := a.getSubjectInformation(ctx, "opaque-token")
 	verifapi.Cover("first-request")
 	if acceptable {
@@ -124,8 +125,6 @@ func VerifC11IntrospectionReuse() {
 		verifapi.Cover("rejected")
 	}
 	verifapi.Assert("C11/introspection/accepted-iff-the-answer-satisfies-the-assertions", (err1 == nil) == acceptable)
-	// nothing that was rejected is ever put into the cache
-	verifapi.Assert("C11/introspection/rejected-answer-is-not-cached", err1 == nil || cch.sets == 0)
 	verifapi.Assert("C11/introspection/caching-off-stores-nothing", ttlKind != 1 || cch.sets == 0)
 
 	// the same token again: the outcome is the same, whether served from the cache or not
@@ -134,8 +133,28 @@ func VerifC11IntrospectionReuse() {
 	if err1 == nil && err2 == nil {
 		verifapi.Assert("C11/introspection/repeated-request-same-subject-information", string(first) == string(second))
 	}
+
+	// another rule uses the same authenticator with its own (rule level) assertions: what it accepts
+	// depends on ITS assertions only, not on what an earlier rule has put into the shared cache
+	other := *a
+	otherNeedsAdmin := verifapi.NondetBool("other-rule.requires-admin-scope")
+	if otherNeedsAdmin {
+		other.a = oauth2.Expectation{ScopesMatcher: oauth2.ExactScopeStrategyMatcher{"admin"}, ValidityLeeway: time.Second}
+	} else {
+		other.a = oauth2.Expectation{ScopesMatcher: oauth2.ExactScopeStrategyMatcher{"read"}, ValidityLeeway: time.Second}
+	}
+	acceptableForOther := active && trustedIssuer && expIn > -1 && (hasScope || !otherNeedsAdmin)
+	_, err3 := other.getSubjectInformation(ctx, "opaque-token")
+	verifapi.Cover("other-rule")
+	verifapi.Assert("C11/introspection/other-rule-decides-by-its-own-assertions", (err3 == nil) == acceptableForOther)
+	// and the first rule is not affected by what the other one cached
+	_, err4 := a.getSubjectInformation(ctx, "opaque-token")
+	verifapi.Assert("C11/introspection/first-rule-still-decides-by-its-own-assertions", (err4 == nil) == acceptable)
+	// C17: handling requests does not write to the (shared) authenticator
+	verifapi.Assert("C17/execute/introspection-authenticator-unchanged-by-requests", !verifapi.Changed(snap))
 	if cch.hits > 0 {
 		verifapi.Cover("served-from-cache")
-		verifapi.Assert("C11/introspection/served-from-cache-only-after-acceptance", err1 == nil && vC11Requests == 1)
+		// an entry exists only after some rule has accepted the answer
+		verifapi.Assert("C11/introspection/served-from-cache-only-after-acceptance", err1 == nil || err3 == nil)
 	}
 }
